@@ -218,7 +218,7 @@ loop:
 		out := cOut{}
 		viaAnyway := false
 		if round&1 == 1 {
-			out, viaAnyway = qu.CallAnyway(op, round)
+			out, viaAnyway = qu.CallAnyway(op, round, anywaySleep)
 		}
 		if !viaAnyway {
 			out = qu.Call(op, round)
@@ -270,7 +270,7 @@ func runStress(e *vh.Env, types []string) {
 		maxRounds = 1 << 40
 	}
 	if e.Search {
-		per = 12 * time.Second
+		per = 8 * time.Second
 		maxRounds = 1 << 40
 	}
 	lost := 0
